@@ -209,6 +209,8 @@ struct Cx<'h, 'f, B: Backend> {
     repr_counts: [u64; 3],
     per_method: BTreeMap<&'static str, u64>,
     want_sample: bool,
+    /// index of the call after which the next iterator call is recorded as a sample
+    sample_at: Option<u64>,
     samples: Vec<String>,
 }
 
@@ -236,6 +238,7 @@ impl<'h, 'f, B: Backend> Cx<'h, 'f, B> {
             repr_counts: [0; 3],
             per_method: BTreeMap::new(),
             want_sample: false,
+            sample_at: None,
             samples: vec![],
         }
     }
@@ -249,6 +252,9 @@ impl<'h, 'f, B: Backend> Cx<'h, 'f, B> {
         }
         self.cur = (m, pat, n, dir);
         self.cur_pushed = false;
+        if self.sample_at == Some(self.calls) {
+            self.want_sample = true;
+        }
         self.calls += 1;
         *self.per_method.entry(m).or_insert(0) += 1;
         true
@@ -259,7 +265,12 @@ impl<'h, 'f, B: Backend> Cx<'h, 'f, B> {
     }
 
     fn fail(&mut self, kind: &'static str, expected: String, observed: String) {
-        if self.fails.len() < 64 {
+        // one report per (kind/check, method) and source is enough: the first one
+        let prefix = self.cur.0;
+        let dup = self.fails.iter().any(|f| {
+            f.kind == kind && f.label.split(|c| c == ' ' || c == '[').next() == Some(prefix)
+        });
+        if !dup && self.fails.len() < 512 {
             let label = self.cur_label();
             self.fails.push(Fail { kind, label, expected, observed });
         }
@@ -275,30 +286,30 @@ impl<'h, 'f, B: Backend> Cx<'h, 'f, B> {
         } else if std_piece.is_empty() {
             (0, 0)
         } else {
-            self.fail("monitor", "std piece inside the haystack".into(), "std piece outside the haystack".into());
+            self.fail("monitor:std-contract", "std piece inside the haystack".into(), "std piece outside the haystack".into());
             return;
         };
         // (a)
         if p.is_borrowed() != self.src_borrowed {
             self.fail(
-                "monitor",
+                "monitor:borrowed-flag",
                 format!("piece {} is_borrowed={}", hex(std_piece.as_bytes()), self.src_borrowed),
                 format!("is_borrowed={}", p.is_borrowed()),
             );
         } else if self.src_borrowed && p.as_ptr() as usize != sp {
             self.fail(
-                "monitor",
+                "monitor:alias",
                 format!("borrowed piece {} aliases the original data at offset {off}", hex(std_piece.as_bytes())),
                 format!("pointer offset {}", (p.as_ptr() as usize).wrapping_sub(base) as isize),
             );
         }
         // (c)
         if std::str::from_utf8(p.as_bytes()).is_err() {
-            self.fail("monitor", "valid UTF-8".into(), format!("bytes {}", hex(p.as_bytes())));
+            self.fail("monitor:utf8", "valid UTF-8".into(), format!("bytes {}", hex(p.as_bytes())));
         }
         let normalized = p.is_inline() || p.is_borrowed() || p.len() > INLINE_CAP;
         if !normalized {
-            self.fail("monitor", "normalised representation".into(), format!("allocated with len {}", p.len()));
+            self.fail("monitor:normalised", "normalised representation".into(), format!("allocated with len {}", p.len()));
         }
         self.repr_counts[if p.is_inline() {
             0
@@ -316,7 +327,7 @@ impl<'h, 'f, B: Backend> Cx<'h, 'f, B> {
     }
 
     /// (b): every recorded piece still reads the std piece
-    fn verify(&mut self, stage: &'static str) {
+    fn verify(&mut self, stage: &'static str, kind: &'static str) {
         let mut bad: Vec<(u32, String, String)> = vec![];
         for pc in &self.pieces {
             let want = &self.h.as_bytes()[pc.off as usize..(pc.off + pc.len) as usize];
@@ -334,7 +345,7 @@ impl<'h, 'f, B: Backend> Cx<'h, 'f, B> {
         }
         for (call, e, o) in bad {
             self.cur = self.calls_meta[call as usize];
-            self.fail("monitor", e, o);
+            self.fail(kind, e, o);
         }
     }
 }
@@ -420,220 +431,276 @@ static ONLY_A: [char; 1] = ['a'];
 static ONLY_SP: [char; 1] = [' '];
 static NONE: [char; 0] = [];
 
+
+// ----- call-site macros; `$c` = `[cx src h]` (the three locals of the enclosing fn)
+
+/// iterator-valued method, one direction
+macro_rules! it_dir {
+    ([$cx:ident $src:ident $h:ident], $name:literal, $pat:expr, $n:expr, $dir:expr, $lock:ident, $collect:ident, [$($extra:expr),*], $m:ident ( $($a:expr),* )) => {
+        if $cx.begin($name, $pat, $n, $dir) {
+            let r = caught(|| $lock($cx, $src.$m($($a),*), $h.$m($($a),*) $(, $extra)*));
+            match r {
+                Some(Ok(k)) => {
+                    if k >= 2 {
+                        $cx.nontrivial += 1;
+                    }
+                    if $cx.want_sample {
+                        $cx.want_sample = false;
+                        let e = show_list(&$collect($h.$m($($a),*) $(, $extra)*));
+                        let l = $cx.cur_label();
+                        $cx.samples.push(format!("hay {} {l} -> {e}", hex($h.as_bytes())));
+                    }
+                }
+                other => {
+                    let e = show_list(&$collect($h.$m($($a),*) $(, $extra)*));
+                    let o = match caught(|| show_list(&$collect($src.$m($($a),*) $(, $extra)*))) {
+                        Some(o) if other.is_some() => o,
+                        _ => "panic".to_string(),
+                    };
+                    $cx.fail("impl-vs-oracle", e, o);
+                }
+            }
+        }
+    };
+}
+macro_rules! it_fwd {
+    ($c:tt, $name:literal, $pat:expr, $n:expr, $m:ident ( $($a:expr),* )) => {
+        it_dir!($c, $name, $pat, $n, Dir::Fwd, lock_fwd, collect_fwd, [], $m($($a),*));
+    };
+}
+macro_rules! it_de {
+    ($c:tt, $name:literal, $pat:expr, $m:ident ( $($a:expr),* )) => {
+        it_dir!($c, $name, $pat, None, Dir::Fwd, lock_de, collect_de, [Dir::Fwd], $m($($a),*));
+        it_dir!($c, $name, $pat, None, Dir::Back, lock_de, collect_de, [Dir::Back], $m($($a),*));
+        it_dir!($c, $name, $pat, None, Dir::Mixed, lock_de, collect_de, [Dir::Mixed], $m($($a),*));
+    };
+}
+
+fn show_opt(e: Option<&str>) -> String {
+    e.map_or("none".to_string(), |e| format!("some({})", hex(e.as_bytes())))
+}
+fn show_opt2(e: Option<(&str, &str)>) -> String {
+    e.map_or("none".to_string(), |(a, b)| format!("some({}|{})", hex(a.as_bytes()), hex(b.as_bytes())))
+}
+
+/// `&str`-valued method
+macro_rules! one {
+    ([$cx:ident $src:ident $h:ident], $name:literal, $pat:expr, $m:ident ( $($a:expr),* )) => {
+        if $cx.begin($name, $pat, None, Dir::Fwd) {
+            let e: &'h str = $h.$m($($a),*);
+            match caught(|| $src.$m($($a),*)) {
+                Some(o) if o.as_str() == e => {
+                    if e.len() != $h.len() {
+                        $cx.nontrivial += 1;
+                    }
+                    $cx.piece(o, e);
+                }
+                Some(o) => $cx.fail("impl-vs-oracle", hex(e.as_bytes()), hex(o.as_bytes())),
+                None => $cx.fail("impl-vs-oracle", hex(e.as_bytes()), "panic".into()),
+            }
+        }
+    };
+}
+/// `Option<&str>`-valued method
+macro_rules! opt {
+    ([$cx:ident $src:ident $h:ident], $name:literal, $pat:expr, $m:ident ( $($a:expr),* )) => {
+        if $cx.begin($name, $pat, None, Dir::Fwd) {
+            let e: Option<&'h str> = $h.$m($($a),*);
+            match caught(|| $src.$m($($a),*)) {
+                Some(o) if o.as_ref().map(|o| o.as_str()) == e => {
+                    if let (Some(o), Some(e)) = (o, e) {
+                        $cx.nontrivial += 1;
+                        $cx.piece(o, e);
+                    }
+                }
+                Some(o) => $cx.fail("impl-vs-oracle", show_opt(e), show_opt(o.as_ref().map(|o| o.as_str()))),
+                None => $cx.fail("impl-vs-oracle", show_opt(e), "panic".into()),
+            }
+        }
+    };
+}
+/// `Option<(&str, &str)>`-valued method
+macro_rules! opt2 {
+    ([$cx:ident $src:ident $h:ident], $name:literal, $pat:expr, $m:ident ( $($a:expr),* )) => {
+        if $cx.begin($name, $pat, None, Dir::Fwd) {
+            let e: Option<(&'h str, &'h str)> = $h.$m($($a),*);
+            match caught(|| $src.$m($($a),*)) {
+                Some(o) if o.as_ref().map(|(a, b)| (a.as_str(), b.as_str())) == e => {
+                    if let (Some((oa, ob)), Some((ea, eb))) = (o, e) {
+                        $cx.nontrivial += 1;
+                        $cx.piece(oa, ea);
+                        $cx.piece(ob, eb);
+                    }
+                }
+                Some(o) => $cx.fail(
+                    "impl-vs-oracle",
+                    show_opt2(e),
+                    show_opt2(o.as_ref().map(|(a, b)| (a.as_str(), b.as_str()))),
+                ),
+                None => $cx.fail("impl-vs-oracle", show_opt2(e), "panic".into()),
+            }
+        }
+    };
+}
+/// everything that takes a pattern besides the 9 unbounded iterators; `$p` is re-evaluated per call
+macro_rules! common {
+    ($c:tt, $pat:expr, $p:expr) => {
+        for n in 0..4usize {
+            it_fwd!($c, "splitn", $pat, Some(n), splitn(n, $p));
+            it_fwd!($c, "rsplitn", $pat, Some(n), rsplitn(n, $p));
+        }
+        opt2!($c, "split_once", $pat, split_once($p));
+        opt2!($c, "rsplit_once", $pat, rsplit_once($p));
+        one!($c, "trim_start_matches", $pat, trim_start_matches($p));
+        one!($c, "trim_end_matches", $pat, trim_end_matches($p));
+        opt!($c, "strip_prefix", $pat, strip_prefix($p));
+        opt!($c, "strip_suffix", $pat, strip_suffix($p));
+    };
+}
+/// pattern whose std searcher is not double-ended (the `&str` family)
+macro_rules! pat_rev {
+    ($c:tt, $pat:expr, $p:expr) => {
+        it_fwd!($c, "split", $pat, None, split($p));
+        it_fwd!($c, "split_inclusive", $pat, None, split_inclusive($p));
+        it_fwd!($c, "split_terminator", $pat, None, split_terminator($p));
+        it_fwd!($c, "rsplit", $pat, None, rsplit($p));
+        it_fwd!($c, "rsplit_terminator", $pat, None, rsplit_terminator($p));
+        it_fwd!($c, "matches", $pat, None, matches($p));
+        it_fwd!($c, "rmatches", $pat, None, rmatches($p));
+        it_fwd!($c, "match_indices", $pat, None, match_indices($p));
+        it_fwd!($c, "rmatch_indices", $pat, None, rmatch_indices($p));
+        common!($c, $pat, $p);
+    };
+}
+/// pattern whose std searcher is double-ended: every iterator also backwards and mixed
+macro_rules! pat_de_iter {
+    ($c:tt, $pat:expr, $p:expr) => {
+        it_de!($c, "split", $pat, split($p));
+        it_de!($c, "split_inclusive", $pat, split_inclusive($p));
+        it_de!($c, "split_terminator", $pat, split_terminator($p));
+        it_de!($c, "rsplit", $pat, rsplit($p));
+        it_de!($c, "rsplit_terminator", $pat, rsplit_terminator($p));
+        it_de!($c, "matches", $pat, matches($p));
+        it_de!($c, "rmatches", $pat, rmatches($p));
+        it_de!($c, "match_indices", $pat, match_indices($p));
+        it_de!($c, "rmatch_indices", $pat, rmatch_indices($p));
+        common!($c, $pat, $p);
+    };
+}
+
+// ----- one (non-inlined) function per pattern TYPE; hipstr's pattern traits are sealed, so each
+// function is written against one concrete std pattern type (closures: the blanket impl)
+
+#[inline(never)]
+fn run_nopat<'h, B: Backend>(src: &HipStr<'h, B>, h: &'h str, cx: &mut Cx<'h, '_, B>) {
+    one!([cx src h], "trim", "-", trim());
+    one!([cx src h], "trim_start", "-", trim_start());
+    one!([cx src h], "trim_end", "-", trim_end());
+    it_de!([cx src h], "split_whitespace", "-", split_whitespace());
+    it_de!([cx src h], "split_ascii_whitespace", "-", split_ascii_whitespace());
+    it_de!([cx src h], "lines", "-", lines());
+}
+#[inline(never)]
+fn run_char<'h, B: Backend>(src: &HipStr<'h, B>, h: &'h str, cx: &mut Cx<'h, '_, B>, pat: &'static str, p: char) {
+    pat_de_iter!([cx src h], pat, p);
+    one!([cx src h], "trim_matches", pat, trim_matches(p));
+}
+#[inline(never)]
+fn run_str<'h, B: Backend>(src: &HipStr<'h, B>, h: &'h str, cx: &mut Cx<'h, '_, B>, pat: &'static str, p: &str) {
+    pat_rev!([cx src h], pat, p);
+}
+#[inline(never)]
+fn run_refstr<'h, B: Backend>(src: &HipStr<'h, B>, h: &'h str, cx: &mut Cx<'h, '_, B>, pat: &'static str, p: &&str) {
+    pat_rev!([cx src h], pat, p);
+}
+#[inline(never)]
+fn run_string<'h, B: Backend>(src: &HipStr<'h, B>, h: &'h str, cx: &mut Cx<'h, '_, B>, pat: &'static str, p: &String) {
+    pat_rev!([cx src h], pat, p);
+}
+#[inline(never)]
+fn run_slice<'h, B: Backend>(src: &HipStr<'h, B>, h: &'h str, cx: &mut Cx<'h, '_, B>, pat: &'static str, p: &[char]) {
+    pat_de_iter!([cx src h], pat, p);
+    one!([cx src h], "trim_matches", pat, trim_matches(p));
+}
+/// `&[char; N]`: std's searcher is double-ended, hipstr registers the type as `reverse` (no `trim_matches`)
+#[inline(never)]
+fn run_array<'h, B: Backend, const N: usize>(
+    src: &HipStr<'h, B>,
+    h: &'h str,
+    cx: &mut Cx<'h, '_, B>,
+    pat: &'static str,
+    p: &[char; N],
+) {
+    pat_de_iter!([cx src h], pat, p);
+}
+#[inline(never)]
+fn run_fn<'h, B: Backend, F: FnMut(char) -> bool + Clone>(
+    src: &HipStr<'h, B>,
+    h: &'h str,
+    cx: &mut Cx<'h, '_, B>,
+    pat: &'static str,
+    p: F,
+) {
+    pat_de_iter!([cx src h], pat, p.clone());
+    one!([cx src h], "trim_matches", pat, trim_matches(p.clone()));
+}
+
 /// Runs every inherited piece-returning method with every pattern on one source.
 fn run_all<'h, B: Backend>(src: &HipStr<'h, B>, h: &'h str, cx: &mut Cx<'h, '_, B>) {
-    // ----- iterator-valued methods
-    macro_rules! it_dir {
-        ($name:literal, $pat:expr, $n:expr, $dir:expr, $lock:ident, $collect:ident, [$($extra:expr),*], $m:ident ( $($a:expr),* )) => {
-            if cx.begin($name, $pat, $n, $dir) {
-                let r = caught(|| $lock(cx, src.$m($($a),*), h.$m($($a),*) $(, $extra)*));
-                match r {
-                    Some(Ok(k)) => {
-                        if k >= 2 { cx.nontrivial += 1; }
-                        if cx.want_sample {
-                            cx.want_sample = false;
-                            let e = show_list(&$collect(h.$m($($a),*) $(, $extra)*));
-                            let l = cx.cur_label();
-                            cx.samples.push(format!("hay {} {l} -> {e}", hex(h.as_bytes())));
-                        }
-                    }
-                    other => {
-                        let e = show_list(&$collect(h.$m($($a),*) $(, $extra)*));
-                        let o = match caught(|| show_list(&$collect(src.$m($($a),*) $(, $extra)*))) {
-                            Some(o) if other.is_some() => o,
-                            _ => "panic".to_string(),
-                        };
-                        cx.fail("impl-vs-oracle", e, o);
-                    }
-                }
-            }
-        };
-    }
-    macro_rules! it_fwd {
-        ($name:literal, $pat:expr, $n:expr, $m:ident ( $($a:expr),* )) => {
-            it_dir!($name, $pat, $n, Dir::Fwd, lock_fwd, collect_fwd, [], $m($($a),*));
-        };
-    }
-    macro_rules! it_de {
-        ($name:literal, $pat:expr, $m:ident ( $($a:expr),* )) => {
-            it_dir!($name, $pat, None, Dir::Fwd, lock_de, collect_de, [Dir::Fwd], $m($($a),*));
-            it_dir!($name, $pat, None, Dir::Back, lock_de, collect_de, [Dir::Back], $m($($a),*));
-            it_dir!($name, $pat, None, Dir::Mixed, lock_de, collect_de, [Dir::Mixed], $m($($a),*));
-        };
-    }
-    // ----- `&str`, `Option<&str>`, `Option<(&str, &str)>`
-    macro_rules! one {
-        ($name:literal, $pat:expr, $m:ident ( $($a:expr),* )) => {
-            if cx.begin($name, $pat, None, Dir::Fwd) {
-                let e: &'h str = h.$m($($a),*);
-                match caught(|| src.$m($($a),*)) {
-                    Some(o) if o.as_str() == e => {
-                        if e.len() != h.len() { cx.nontrivial += 1; }
-                        cx.piece(o, e);
-                    }
-                    Some(o) => cx.fail("impl-vs-oracle", hex(e.as_bytes()), hex(o.as_bytes())),
-                    None => cx.fail("impl-vs-oracle", hex(e.as_bytes()), "panic".into()),
-                }
-            }
-        };
-    }
-    macro_rules! opt {
-        ($name:literal, $pat:expr, $m:ident ( $($a:expr),* )) => {
-            if cx.begin($name, $pat, None, Dir::Fwd) {
-                let e: Option<&'h str> = h.$m($($a),*);
-                let show_e = |e: Option<&str>| e.map_or("none".to_string(), |e| format!("some({})", hex(e.as_bytes())));
-                match caught(|| src.$m($($a),*)) {
-                    Some(o) if o.as_ref().map(|o| o.as_str()) == e => {
-                        if let (Some(o), Some(e)) = (o, e) {
-                            cx.nontrivial += 1;
-                            cx.piece(o, e);
-                        }
-                    }
-                    Some(o) => cx.fail("impl-vs-oracle", show_e(e), show_e(o.as_ref().map(|o| o.as_str()))),
-                    None => cx.fail("impl-vs-oracle", show_e(e), "panic".into()),
-                }
-            }
-        };
-    }
-    macro_rules! opt2 {
-        ($name:literal, $pat:expr, $m:ident ( $($a:expr),* )) => {
-            if cx.begin($name, $pat, None, Dir::Fwd) {
-                let e: Option<(&'h str, &'h str)> = h.$m($($a),*);
-                let show_e = |e: Option<(&str, &str)>| {
-                    e.map_or("none".to_string(), |(a, b)| format!("some({}|{})", hex(a.as_bytes()), hex(b.as_bytes())))
-                };
-                match caught(|| src.$m($($a),*)) {
-                    Some(o) if o.as_ref().map(|(a, b)| (a.as_str(), b.as_str())) == e => {
-                        if let (Some((oa, ob)), Some((ea, eb))) = (o, e) {
-                            cx.nontrivial += 1;
-                            cx.piece(oa, ea);
-                            cx.piece(ob, eb);
-                        }
-                    }
-                    Some(o) => cx.fail("impl-vs-oracle", show_e(e), show_e(o.as_ref().map(|(a, b)| (a.as_str(), b.as_str())))),
-                    None => cx.fail("impl-vs-oracle", show_e(e), "panic".into()),
-                }
-            }
-        };
-    }
-    // ----- everything that takes a pattern; `$p` is re-evaluated for every call
-    macro_rules! common {
-        ($pat:literal, $p:expr) => {
-            for n in 0..4usize {
-                it_fwd!("splitn", $pat, Some(n), splitn(n, $p));
-                it_fwd!("rsplitn", $pat, Some(n), rsplitn(n, $p));
-            }
-            opt2!("split_once", $pat, split_once($p));
-            opt2!("rsplit_once", $pat, rsplit_once($p));
-            one!("trim_start_matches", $pat, trim_start_matches($p));
-            one!("trim_end_matches", $pat, trim_end_matches($p));
-            opt!("strip_prefix", $pat, strip_prefix($p));
-            opt!("strip_suffix", $pat, strip_suffix($p));
-        };
-    }
-    /// pattern whose std searcher is not double-ended (`&str` family)
-    macro_rules! pat_rev {
-        ($pat:literal, $p:expr) => {
-            it_fwd!("split", $pat, None, split($p));
-            it_fwd!("split_inclusive", $pat, None, split_inclusive($p));
-            it_fwd!("split_terminator", $pat, None, split_terminator($p));
-            it_fwd!("rsplit", $pat, None, rsplit($p));
-            it_fwd!("rsplit_terminator", $pat, None, rsplit_terminator($p));
-            it_fwd!("matches", $pat, None, matches($p));
-            it_fwd!("rmatches", $pat, None, rmatches($p));
-            it_fwd!("match_indices", $pat, None, match_indices($p));
-            it_fwd!("rmatch_indices", $pat, None, rmatch_indices($p));
-            common!($pat, $p);
-        };
-    }
-    /// pattern whose std searcher is double-ended: every iterator also backwards and mixed
-    macro_rules! pat_de_iter {
-        ($pat:literal, $p:expr) => {
-            it_de!("split", $pat, split($p));
-            it_de!("split_inclusive", $pat, split_inclusive($p));
-            it_de!("split_terminator", $pat, split_terminator($p));
-            it_de!("rsplit", $pat, rsplit($p));
-            it_de!("rsplit_terminator", $pat, rsplit_terminator($p));
-            it_de!("matches", $pat, matches($p));
-            it_de!("rmatches", $pat, rmatches($p));
-            it_de!("match_indices", $pat, match_indices($p));
-            it_de!("rmatch_indices", $pat, rmatch_indices($p));
-            common!($pat, $p);
-        };
-    }
-    /// … and hipstr gives it `DoubleEndedPattern` (`trim_matches`)
-    macro_rules! pat_de {
-        ($pat:literal, $p:expr) => {
-            pat_de_iter!($pat, $p);
-            one!("trim_matches", $pat, trim_matches($p));
-        };
-    }
-
-    // no pattern
-    one!("trim", "-", trim());
-    one!("trim_start", "-", trim_start());
-    one!("trim_end", "-", trim_end());
-    it_de!("split_whitespace", "-", split_whitespace());
-    it_de!("split_ascii_whitespace", "-", split_ascii_whitespace());
-    it_de!("lines", "-", lines());
-
+    run_nopat(src, h, cx);
     // char
-    pat_de!("char:a", 'a');
-    pat_de!("char:b", 'b');
-    pat_de!("char:space", ' ');
-    pat_de!("char:nl", '\n');
-    pat_de!("char:cr", '\r');
-    pat_de!("char:e-acute", 'é');
-    pat_de!("char:euro", '€');
-    pat_de!("char:crab", '🦀');
-    // &str
-    pat_rev!("str:", "");
-    pat_rev!("str:a", "a");
-    pat_rev!("str:aa", "aa");
-    pat_rev!("str:ab", "ab");
-    pat_rev!("str:ba", "ba");
-    pat_rev!("str:space", " ");
-    pat_rev!("str:nl", "\n");
-    pat_rev!("str:crnl", "\r\n");
-    pat_rev!("str:e-acute", "é");
-    pat_rev!("str:euro-a", "€a");
-    pat_rev!("str:crab", "🦀");
-    pat_rev!("str:a-space", "a ");
+    run_char(src, h, cx, "char:a", 'a');
+    run_char(src, h, cx, "char:b", 'b');
+    run_char(src, h, cx, "char:space", ' ');
+    run_char(src, h, cx, "char:nl", '\n');
+    run_char(src, h, cx, "char:cr", '\r');
+    run_char(src, h, cx, "char:e-acute", 'é');
+    run_char(src, h, cx, "char:euro", '€');
+    run_char(src, h, cx, "char:crab", '🦀');
+    // &str (incl. empty and overlapping)
+    run_str(src, h, cx, "str:", "");
+    run_str(src, h, cx, "str:a", "a");
+    run_str(src, h, cx, "str:aa", "aa");
+    run_str(src, h, cx, "str:ab", "ab");
+    run_str(src, h, cx, "str:ba", "ba");
+    run_str(src, h, cx, "str:space", " ");
+    run_str(src, h, cx, "str:nl", "\n");
+    run_str(src, h, cx, "str:crnl", "\r\n");
+    run_str(src, h, cx, "str:e-acute", "é");
+    run_str(src, h, cx, "str:euro-a", "€a");
+    run_str(src, h, cx, "str:crab", "🦀");
+    run_str(src, h, cx, "str:a-space", "a ");
     // &&str
-    let ref_a: &str = "a";
-    let ref_empty: &str = "";
-    pat_rev!("refstr:a", &ref_a);
-    pat_rev!("refstr:", &ref_empty);
+    run_refstr(src, h, cx, "refstr:a", &"a");
+    run_refstr(src, h, cx, "refstr:", &"");
     // &String
     let s_aa = String::from("aa");
     let s_empty = String::new();
     let s_e = String::from("é");
-    pat_rev!("string:aa", &s_aa);
-    pat_rev!("string:", &s_empty);
-    pat_rev!("string:e-acute", &s_e);
+    run_string(src, h, cx, "string:aa", &s_aa);
+    run_string(src, h, cx, "string:", &s_empty);
+    run_string(src, h, cx, "string:e-acute", &s_e);
     // &[char]
-    pat_de!("slice:", &NONE[..]);
-    pat_de!("slice:a", &ONLY_A[..]);
-    pat_de!("slice:ab", &AB[..]);
-    pat_de!("slice:space-nl", &SP_NL[..]);
-    pat_de!("slice:e-acute-crab", &E_CRAB[..]);
+    run_slice(src, h, cx, "slice:", &NONE[..]);
+    run_slice(src, h, cx, "slice:a", &ONLY_A[..]);
+    run_slice(src, h, cx, "slice:ab", &AB[..]);
+    run_slice(src, h, cx, "slice:space-nl", &SP_NL[..]);
+    run_slice(src, h, cx, "slice:e-acute-crab", &E_CRAB[..]);
     // &[char; N]
-    pat_de_iter!("array:ab", &AB);
-    pat_de_iter!("array:space", &ONLY_SP);
-    pat_de_iter!("array:", &NONE);
-    // closures
-    pat_de!("fn:eq-a", |c: char| c == 'a');
-    pat_de!("fn:alphabetic", |c: char| c.is_alphabetic());
-    pat_de!("fn:non-ascii", |c: char| !c.is_ascii());
-    pat_de!("fn:is_whitespace", char::is_whitespace);
-    pat_de!("fn:true", |_c: char| true);
-    pat_de!("fn:false", |_c: char| false);
-    pat_de!("fn:stateful-every-2nd", {
-        let mut k = 0u32;
-        move |_c: char| {
-            k += 1;
-            k % 2 == 0
-        }
+    run_array(src, h, cx, "array:ab", &AB);
+    run_array(src, h, cx, "array:space", &ONLY_SP);
+    run_array(src, h, cx, "array:", &NONE);
+    // closures and fn items
+    run_fn(src, h, cx, "fn:eq-a", |c: char| c == 'a');
+    run_fn(src, h, cx, "fn:alphabetic", |c: char| c.is_alphabetic());
+    run_fn(src, h, cx, "fn:non-ascii", |c: char| !c.is_ascii());
+    run_fn(src, h, cx, "fn:is_whitespace", char::is_whitespace);
+    run_fn(src, h, cx, "fn:true", |_c: char| true);
+    run_fn(src, h, cx, "fn:false", |_c: char| false);
+    let mut k = 0u32;
+    run_fn(src, h, cx, "fn:stateful-every-2nd", move |_c: char| {
+        k += 1;
+        k % 2 == 0
     });
 }
 
@@ -711,7 +778,7 @@ impl Stats {
 }
 
 /// Builds the source, runs everything, then mutates and drops the source and re-reads every piece.
-fn run_source<B: Backend>(h: &str, kind: Kind, filter: Option<&str>, sample: bool) -> (Vec<Fail>, SrcStats) {
+fn run_source<B: Backend>(h: &str, kind: Kind, filter: Option<&str>, sample: Option<u64>) -> (Vec<Fail>, SrcStats) {
     // heapslice: the haystack sits at an offset inside a bigger heap buffer
     let big: String = format!("0123456789-{h}-9876543210");
     let src: HipStr<'_, B> = match kind {
@@ -724,7 +791,7 @@ fn run_source<B: Backend>(h: &str, kind: Kind, filter: Option<&str>, sample: boo
         }
     };
     let mut cx: Cx<'_, '_, B> = Cx::new(h, src.is_borrowed(), filter);
-    cx.want_sample = sample;
+    cx.sample_at = sample;
     let src_class = if src.is_inline() {
         "inline"
     } else if src.is_borrowed() {
@@ -739,7 +806,7 @@ fn run_source<B: Backend>(h: &str, kind: Kind, filter: Option<&str>, sample: boo
     };
     if src_class != expected_class {
         cx.cur = ("source", "-", None, Dir::Fwd);
-        cx.fail("monitor", format!("source representation {expected_class}"), src_class.to_string());
+        cx.fail("monitor:source", format!("source representation {expected_class}"), src_class.to_string());
     }
     run_all(&src, h, &mut cx);
     // (b) mutate the source in place, then drop it
@@ -751,11 +818,11 @@ fn run_source<B: Backend>(h: &str, kind: Kind, filter: Option<&str>, sample: boo
     }));
     if mutated != Some(h.len() + 6) {
         cx.cur = ("source", "-", None, Dir::Fwd);
-        cx.fail("monitor", format!("mutated source of len {}", h.len() + 6), format!("{mutated:?}"));
+        cx.fail("monitor:source", format!("mutated source of len {}", h.len() + 6), format!("{mutated:?}"));
     }
-    cx.verify("after-source-mutation");
+    cx.verify("after-source-mutation", "monitor:after-source-mutation");
     drop(src);
-    cx.verify("after-source-drop");
+    cx.verify("after-source-drop", "monitor:after-source-drop");
     let st = SrcStats {
         calls: cx.calls,
         nontrivial: cx.nontrivial,
@@ -766,6 +833,10 @@ fn run_source<B: Backend>(h: &str, kind: Kind, filter: Option<&str>, sample: boo
         src_class,
     };
     let fails = std::mem::take(&mut cx.fails);
+    if fails.iter().any(|f| f.kind.starts_with("monitor")) {
+        // a broken share count must not take the report down with a double free
+        std::mem::forget(std::mem::take(&mut cx.pieces));
+    }
     drop(cx);
     (fails, st)
 }
@@ -780,7 +851,7 @@ struct SrcStats {
     src_class: &'static str,
 }
 
-fn run_dyn(h: &str, kind: Kind, bk: Bk, filter: Option<&str>, sample: bool) -> (Vec<Fail>, SrcStats) {
+fn run_dyn(h: &str, kind: Kind, bk: Bk, filter: Option<&str>, sample: Option<u64>) -> (Vec<Fail>, SrcStats) {
     match bk {
         Bk::Arc => run_source::<Arc>(h, kind, filter, sample),
         Bk::Rc => run_source::<Rc>(h, kind, filter, sample),
@@ -788,7 +859,7 @@ fn run_dyn(h: &str, kind: Kind, bk: Bk, filter: Option<&str>, sample: bool) -> (
     }
 }
 
-fn account(st: &mut Stats, h: &str, kind: Kind, bk: Bk, sample: bool) {
+fn account(st: &mut Stats, h: &str, kind: Kind, bk: Bk, sample: Option<u64>) {
     let (fails, ss) = run_dyn(h, kind, bk, None, sample);
     st.evaluations += ss.calls;
     st.nontrivial += ss.nontrivial;
@@ -802,13 +873,15 @@ fn account(st: &mut Stats, h: &str, kind: Kind, bk: Bk, sample: bool) {
         st.hit(&format!("method {m}"), n);
     }
     for s in ss.samples {
-        if st.samples.len() < 10 {
+        if st.samples.len() < 12 {
             st.samples.push(format!("{s} [{} {}]", kind.name(), bk.name()));
         }
     }
     for f in fails {
         st.total_fails += 1;
-        let key = format!("{} {}", f.kind, f.label);
+        // one report per (kind/check, method): the shortest haystack, first pattern in enumeration order
+        let method = f.label.split(|c| c == ' ' || c == '[').next().unwrap_or("");
+        let key = format!("{} {method}", f.kind);
         let better = st.found.get(&key).map_or(true, |(old, ..)| h.len() < old.len());
         if better {
             st.found.insert(key, (h.to_string(), kind, bk, f));
@@ -833,7 +906,7 @@ fn shrink(h: &str, kind: Kind, bk: Bk, f: Fail) -> (String, Fail) {
             if matches!(kind, Kind::Heap | Kind::HeapSlice) && cand.len() <= INLINE_CAP {
                 continue;
             }
-            let (fails, _) = run_dyn(&cand, kind, bk, Some(&cur_fail.label), false);
+            let (fails, _) = run_dyn(&cand, kind, bk, Some(&cur_fail.label), None);
             if let Some(nf) = fails.into_iter().find(|x| x.kind == cur_fail.kind && x.label == cur_fail.label) {
                 cur = cand;
                 cur_fail = nf;
@@ -1081,8 +1154,9 @@ fn main() {
                 eprintln!("patdrive: cannot parse replay input {lines:?}");
                 std::process::exit(2);
             };
-            let (fails, ss) = run_dyn(&h, k, b, call.as_deref(), false);
+            let (fails, ss) = run_dyn(&h, k, b, call.as_deref(), None);
             st.evaluations += ss.calls;
+            st.pieces += ss.pieces;
             st.sources += 1;
             for f in fails {
                 st.total_fails += 1;
@@ -1093,7 +1167,7 @@ fn main() {
         // ---- exhaustive part: all strings of at most `max_units` units
         let max_units = if thorough { 6 } else { 4 };
         // every backend up to this many units; above, the backend rotates with the haystack index
-        let all_backends_upto = if thorough { 5 } else { 3 };
+        let all_backends_upto = if thorough { 5 } else { 4 };
         let mut idx: Vec<usize> = vec![];
         let mut count = 0u64;
         let mut h = String::new();
@@ -1103,7 +1177,7 @@ fn main() {
                 h.push_str(UNITS[i]);
             }
             count += 1;
-            let sample = count % 997 == 1;
+            let sample = if count % 467 == 1 { Some(count * 37 % 1300) } else { None };
             let kinds: &[Kind] = if h.len() <= INLINE_CAP { &[Kind::Inline, Kind::Borrowed] } else { &[Kind::Heap, Kind::HeapSlice, Kind::Borrowed] };
             let bks: Vec<Bk> = if idx.len() <= all_backends_upto {
                 vec![Bk::Arc, Bk::Rc, Bk::Unique]
@@ -1112,7 +1186,7 @@ fn main() {
             };
             for &k in kinds {
                 for &b in &bks {
-                    account(&mut st, &h, k, b, sample && k == Kind::Inline && b == bks[0]);
+                    account(&mut st, &h, k, b, if k == Kind::Inline && b == bks[0] { sample } else { None });
                 }
             }
             // next index vector (shortlex)
@@ -1138,7 +1212,7 @@ fn main() {
         st.hit("haystacks enumerated", count);
 
         // ---- random longer haystacks: heap, heap offset slices, borrowed (and inline when short)
-        let n_random = if thorough { 4000 } else { 250 };
+        let n_random = if thorough { 6000 } else { 600 };
         for r in 0..n_random {
             let n = if r % 4 == 0 { 5 + rng.below(6) } else { 8 + rng.below(40) };
             // skewed alphabets so that long matches / separators runs occur
@@ -1156,7 +1230,7 @@ fn main() {
             let kinds: &[Kind] = if h.len() <= INLINE_CAP { &[Kind::Inline, Kind::Borrowed] } else { &[Kind::Heap, Kind::HeapSlice, Kind::Borrowed] };
             for &k in kinds {
                 for b in [Bk::Arc, Bk::Rc, Bk::Unique] {
-                    account(&mut st, &h, k, b, r % 50 == 0 && k == Kind::Heap && b == Bk::Arc);
+                    account(&mut st, &h, k, b, if r % 50 == 0 && k == Kind::HeapSlice && b == Bk::Arc { Some(r as u64 * 7 % 1300) } else { None });
                 }
             }
         }
@@ -1176,8 +1250,10 @@ fn main() {
         } else {
             vec![format!("{} {} {}", f.label, bk.name(), if f.label.starts_with("from_utf16") { h.clone() } else { hex(h.as_bytes()) })]
         };
+        let (kind, check) = f.kind.split_once(':').unwrap_or((f.kind, ""));
+        let expected = if check.is_empty() { f.expected.clone() } else { format!("[{check}] {}", f.expected) };
         disagreements.push(serde_json::json!({
-            "kind": f.kind, "input": input, "expected": f.expected, "observed": f.observed, "profile": profile,
+            "kind": kind, "input": input, "expected": expected, "observed": f.observed, "profile": profile,
         }));
     }
     let n_dis = disagreements.len();
